@@ -586,7 +586,12 @@ def identifier(expression: exp.Expression) -> exp.Expression:
         and isinstance(expression.this, str)
         and expression.this.upper() == "IDENTIFIER"
     ):
-        expression = exp.Identifier(this=expression.expressions[0].this, quoted=False)
+        name = expression.expressions[0].this
+        if isinstance(name, str) and len(name) > 1 and name.startswith('"') and name.endswith('"') and "." not in name:
+            # a quoted name inside the literal is taken as written
+            expression = exp.Identifier(this=name[1:-1].replace('""', '"'), quoted=True)
+        else:
+            expression = exp.Identifier(this=name, quoted=False)
 
     return expression
 
